@@ -124,7 +124,7 @@ CLAIMS = {
         "(nd_eq_leastModel, nd_runs_agree) and every schedule of the parallel engine is one (par_is_nd). Tied by ascent_par! twins of generated "
         "relational / lattice / aggregation programs, with and without #![inter_rule_parallelism], in pools of 1..16 threads under seeded perturbation of every "
         "concurrent index insert (hook), vs the serial model and the naive oracle. PARTIAL: lattices and aggregation in parallel mode are covered by the tie "
-        "only (finding F5, aggregates over a lattice in parallel mode, was repaired by fix 058163a and its witness must pass); deadlock-freedom, DashMap/boxcar/RwLock/Mutex atomicity, rayon completion and memory ordering are assumptions, exercised not proved. Physical level (Props/C02Phys.lean over Model/EnginePhysPar.lean): the generated ascent_par! code over its concurrent hash indices - frozen / unfrozen protocol with panics, per-thread CRelNoIndex, parallel update_indices, head updates of all workers interleaved - never panics and computes exactly the least model for EVERY schedule and pool size (runPhysPar_eq_leastModel); the relational cases of the tie are compared with this model (eng runpp). Props/C02PhysLat.lean: ascent_par! WITH lattice relations over its concurrent indices - for every schedule, pool and rule-scheduling mode no panic and the least fixed point (runPhysParLat_spec; the flag law of join_mut is a hypothesis, shown necessary by runPhysParLat_needs_flag_law); tied by `eng runppl`.",
+        "only (finding F5, aggregates over a lattice in parallel mode, was repaired by fix 058163a and its witness must pass); deadlock-freedom, DashMap/boxcar/RwLock/Mutex atomicity, rayon completion and memory ordering are assumptions, exercised not proved. Physical level (Props/C02Phys.lean over Model/EnginePhysPar.lean): the generated ascent_par! code over its concurrent hash indices - frozen / unfrozen protocol with panics, per-thread CRelNoIndex, parallel update_indices, head updates of all workers interleaved - never panics and computes exactly the least model for EVERY schedule and pool size (runPhysPar_eq_leastModel); the relational cases of the tie are compared with this model (eng runpp). Props/C02PhysLat.lean: ascent_par! WITH lattice relations over its concurrent indices - for every schedule, pool and rule-scheduling mode no panic and the least fixed point (runPhysParLat_spec; the flag law of join_mut is a hypothesis, shown necessary by runPhysParLat_needs_flag_law); tied by `eng runppl`. Props/C02PhysAgg.lean: ascent_par! on stratified programs with aggregation / negation - every schedule and pool, no panic, the stratified model (runPhysPar_agg_eq_model), schedule and pool independence; tied by `eng runpp`.",
    design_ref="DESIGN.md §8 C02, §13", note=ENGINE_NOTE),
  "C20": dict(
    engine="tie-B-engine",
